@@ -12,6 +12,19 @@ N1 `inline_helpers`     one level of helper inlining: a call `name(atom, ...)` o
                         cannot change), the helper's free names must not be locals of the caller and names bound
                         inside the helper expression must not capture an argument.  A helper of another shape is
                         left in place: the strict recogniser then fails on the unknown call.
+N1b `inline_helpers`    the same for a helper NESTED in the anchored function: `def p(x): return <expr>` or
+                        `p = lambda x: <expr>` as a top-level statement of the body (beta-reduction; the `def` statement
+                        is dropped).  Side conditions: `p` bound exactly once in the function, never read before its
+                        definition, every read of `p` is the callee of a call with atom arguments of the right arity and
+                        no keywords, `<expr>` has no walrus / yield / await, does not mention `p`, binds none of its
+                        parameters or of the call's arguments, and its free names are not bound by a comprehension or
+                        lambda of the caller (a closure reads the caller's locals at call time, which is where the
+                        inlined expression reads them).  Anything else leaves the `def` in place -> recogniser fails.
+N1c `inline_helpers(value_level=True)`  (call-site classifier only) a module-level helper whose body is straight-line
+                        `x = E` / `a, b, c = E` assignments to fresh names followed by `return <expr>`, every such local
+                        read at most once: the call is replaced by the VALUE expression obtained by forward substitution
+                        (N7; `a, b, c = E` gives `c = E[2]`).  This is value-level, like N7: the calls that remain in the
+                        expression are the modelled, side-effect-free generator / simplifier functions.
 N2 `loops_to_comps`     `X = []` immediately followed by `for v in IT: <guards> X.append(E)` (also `X += [E]`)
                         -> `X = [E for v in IT if g1 if g2 ...]`; guards are `if C: continue` before the rest,
                         `if C: <rest>`, `if C: continue/pass else: <rest>` (guard inversion).  Side conditions: `v` is
@@ -142,7 +155,7 @@ def subst(node, mapping):
 # N1  helper inlining
 # ---------------------------------------------------------------------------------------
 
-def _helper_expr(module, name):
+def _helper_expr(module, name, value_level=False):
     """(params, expr) of an inlinable module-level helper, or None"""
     defs = [n for n in module.body if isinstance(n, (ast.FunctionDef, ast.AsyncFunctionDef, ast.ClassDef)) and n.name == name]
     if len(defs) != 1 or not isinstance(defs[0], ast.FunctionDef):
@@ -155,25 +168,137 @@ def _helper_expr(module, name):
     if d.decorator_list or a.posonlyargs or a.kwonlyargs or a.vararg or a.kwarg or a.defaults or a.kw_defaults:
         return None
     body = strip_doc(d.body)
+    params = [x.arg for x in a.args]
+    if value_level and len(body) > 1:
+        return _straight_line_value(d, params, body)
     if len(body) != 1 or not isinstance(body[0], ast.Return) or body[0].value is None:
         return None
-    params = [x.arg for x in a.args]
     if set(params) & bound_names(body[0].value) or len(set(params)) != len(params):
         return None
     return params, body[0].value
 
 
+def _straight_line_value(d, params, body):
+    """N1c: (params, value expression of the return) of `x = E; a, b = F(x); return G(b)`; None when not of that shape"""
+    if not isinstance(body[-1], ast.Return) or body[-1].value is None or len(set(params)) != len(params):
+        return None
+    locs = set()
+    for st in body[:-1]:
+        if not (isinstance(st, ast.Assign) and len(st.targets) == 1):
+            return None
+        t = st.targets[0]
+        names = [t] if isinstance(t, ast.Name) else list(t.elts) if isinstance(t, ast.Tuple) else None
+        if names is None or not all(isinstance(x, ast.Name) for x in names):
+            return None
+        locs |= set(x.id for x in names)
+        if bound_names(st.value):                            # comprehension / lambda / walrus inside: not handled here
+            return None
+    if locs & set(params) or bound_names(body[-1].value):
+        return None
+    for nm in locs:                                          # read at most once (no duplicated evaluation)
+        if sum(1 for st in body for n in ast.walk(st) if isinstance(n, ast.Name) and n.id == nm and isinstance(n.ctx, ast.Load)) > 1:
+            return None
+    fl = Flow(d, None)
+    if len(fl.returns) != 1 or fl.returns[0] is None:
+        return None
+    return params, fl.returns[0]
+
+
+_IMPURE = (ast.NamedExpr, ast.Yield, ast.YieldFrom, ast.Await)
+
+
+def _bind_count(fn, name):
+    c = 0
+    for n in ast.walk(fn):
+        if isinstance(n, ast.Name) and isinstance(n.ctx, (ast.Store, ast.Del)) and n.id == name:
+            c += 1
+        elif isinstance(n, (ast.FunctionDef, ast.AsyncFunctionDef, ast.ClassDef)) and n is not fn and n.name == name:
+            c += 1
+        elif isinstance(n, ast.arg) and n.arg == name:
+            c += 1
+        elif isinstance(n, ast.ExceptHandler) and n.name == name:
+            c += 1
+        elif isinstance(n, ast.alias) and (n.asname or n.name).split(".")[0] == name:
+            c += 1
+        elif isinstance(n, (ast.Global, ast.Nonlocal)) and name in n.names:
+            c += 1
+    return c
+
+
+def _nested_helpers(fn):
+    """N1b: {name: (statement, params, expr)} of the inlinable one-expression helpers defined in the body of `fn`"""
+    out = {}
+    body = fn.body
+    comp_bound = set()
+    for n in ast.walk(fn):
+        if isinstance(n, (ast.ListComp, ast.SetComp, ast.GeneratorExp, ast.DictComp)):
+            for g in n.generators:
+                comp_bound |= bound_names(g.target)
+    for k, st in enumerate(body):
+        if isinstance(st, ast.FunctionDef) and not st.decorator_list:
+            b = strip_doc(st.body)
+            if len(b) != 1 or not isinstance(b[0], ast.Return) or b[0].value is None:
+                continue
+            name, a, expr = st.name, st.args, b[0].value
+        elif isinstance(st, ast.Assign) and len(st.targets) == 1 and isinstance(st.targets[0], ast.Name) and isinstance(st.value, ast.Lambda):
+            name, a, expr = st.targets[0].id, st.value.args, st.value.body
+        else:
+            continue
+        if a.posonlyargs or a.kwonlyargs or a.vararg or a.kwarg or a.defaults or a.kw_defaults:
+            continue
+        params = [x.arg for x in a.args]
+        if len(set(params)) != len(params) or set(params) & bound_names(expr) or name in params:
+            continue
+        if any(isinstance(n, _IMPURE) for n in ast.walk(expr)) or names_loaded(expr, name):
+            continue
+        if _bind_count(fn, name) != 1:
+            continue
+        if any(names_loaded(x, name) for x in body[:k]):
+            continue
+        free = set(n.id for n in ast.walk(expr) if isinstance(n, ast.Name)) - set(params) - bound_names(expr)
+        lam_bound = set()
+        own = st.value if isinstance(st, ast.Assign) else st
+        for n in ast.walk(fn):
+            if isinstance(n, ast.Lambda) and n is not own:
+                lam_bound |= bound_names(n)
+            elif isinstance(n, (ast.FunctionDef, ast.AsyncFunctionDef)) and n is not fn and n is not own:
+                lam_bound |= bound_names(n)
+        if free & (comp_bound | lam_bound):
+            continue
+        # every read of the name is the callee of a plain call with atom arguments
+        callee_ids = set(id(n.func) for n in ast.walk(fn) if isinstance(n, ast.Call) and isinstance(n.func, ast.Name) and n.func.id == name
+                         and not n.keywords and len(n.args) == len(params) and all(is_atom(x) for x in n.args))
+        reads = [n for n in ast.walk(fn) if isinstance(n, ast.Name) and n.id == name and isinstance(n.ctx, ast.Load)]
+        if not all(id(n) in callee_ids for n in reads):
+            continue
+        out[name] = (st, params, expr)
+    return out
+
+
 class _Inline(ast.NodeTransformer):
-    def __init__(self, module, caller_locals, self_name):
+    def __init__(self, module, caller_locals, self_name, nested=None, value_level=False):
         self.module, self.locals, self.self_name = module, caller_locals, self_name
+        self.nested = nested or {}
+        self.value_level = value_level
         self.done = []
         self.skipped = []
 
     def visit_Call(self, node):
         self.generic_visit(node)
+        if isinstance(node.func, ast.Name) and node.func.id in self.nested:
+            _, params, expr = self.nested[node.func.id]
+            inner_bound = bound_names(expr)
+            for x in node.args:
+                if isinstance(x, ast.Name) and x.id in inner_bound:
+                    raise ExtractError("line %d: inlining %s would capture %s" % (node.lineno, node.func.id, x.id))
+            self.done.append(node.func.id)
+            new = subst(expr, dict(zip(params, node.args)))
+            for n in ast.walk(new):
+                ast.copy_location(n, node)
+            return new
         if not (isinstance(node.func, ast.Name) and node.func.id not in self.locals and node.func.id != self.self_name):
             return node
-        h = _helper_expr(self.module, node.func.id)
+        h = _helper_expr(self.module, node.func.id, self.value_level)
         if h is None:
             return node
         params, expr = h
@@ -198,10 +323,13 @@ class _Inline(ast.NodeTransformer):
         return new
 
 
-def inline_helpers(fn, module):
-    """copy of `fn` with one level of simple helpers inlined"""
+def inline_helpers(fn, module, value_level=False):
+    """copy of `fn` with one level of simple helpers inlined (N1, N1b; N1c when `value_level`)"""
     fn = copy.deepcopy(fn)
-    tr = _Inline(module, fn_locals(fn), fn.name)
+    nested = _nested_helpers(fn)
+    drop = set(id(v[0]) for v in nested.values())
+    fn.body = [st for st in fn.body if id(st) not in drop]
+    tr = _Inline(module, fn_locals(fn) - set(nested), fn.name, nested, value_level)
     fn.body = [tr.visit(st) for st in fn.body]
     return ast.fix_missing_locations(fn)
 
@@ -603,6 +731,18 @@ class Strings(object):
         if isinstance(e, ast.Call) and isinstance(e.func, ast.Name) and e.func.id == "str" and len(e.args) == 1 and not e.keywords \
                 and "str" not in self.env:
             return self.hole(e.args[0], "s")
+        if isinstance(e, ast.Call) and isinstance(e.func, ast.Attribute) and e.func.attr == "format" and not e.keywords \
+                and not any(isinstance(a, ast.Starred) for a in e.args):
+            fmt = self.str(e.func.value).literal()
+            if fmt is None:
+                self.fail(e, "format string is not a literal")
+            pieces = fmt.split("{}")
+            if any("{" in p or "}" in p for p in pieces) or len(pieces) != len(e.args) + 1:
+                self.fail(e, "str.format other than positional `{}`")
+            out = lit(pieces[0])
+            for a, p in zip(e.args, pieces[1:]):
+                out = out + self.hole(a, "s") + lit(p)
+            return out
         if isinstance(e, ast.Call) and isinstance(e.func, ast.Attribute) and e.func.attr == "join" and len(e.args) == 1 and not e.keywords:
             sep = self.str(e.func.value)
             items = self.strlist(e.args[0])
@@ -712,6 +852,7 @@ class Flow(object):
         a = fn.args
         self.params = [x.arg for x in a.posonlyargs + a.args + a.kwonlyargs]
         self.calls = []
+        self.returns = []                                   # resolved value of every `return <expr>` met (None: unknown)
         env = dict((p, ast.Name(id=p, ctx=ast.Load())) for p in self.params)
         self.block(strip_doc(fn.body), env)
 
@@ -829,6 +970,8 @@ class Flow(object):
                 for t in st.targets:
                     self.assign(t, None, env)
             else:                                           # return, raise, assert, pass, import, global, ...
+                if isinstance(st, ast.Return):
+                    self.returns.append(None if st.value is None else self.resolve(st.value, env))
                 for n in ast.iter_child_nodes(st):
                     if isinstance(n, ast.expr):
                         self.scan(n, env)
